@@ -27,6 +27,8 @@ func fnKey(fn *ssa.Function) string {
 	return fn.Pkg.Pkg.Path() + "." + fn.RelString(fn.Pkg.Pkg)
 }
 
+var curCallArgs []ssa.Value
+
 func (g *Gen) contractFor(fn *ssa.Function) *Contract {
 	if fn == nil {
 		return nil
@@ -77,6 +79,17 @@ func (f *FnVC) call(v ssa.Value, c *ssa.CallCommon, ins ssa.Instruction) {
 		if callee != nil {
 			name = callee.String()
 			ct = f.g.contractFor(callee)
+			if !f.g.isRepoFn(callee) {
+				// an extern taking an interface may have a contract per dynamic argument type:  extern pkg.F[T](...)
+				for _, a := range c.Args {
+					if mi, ok := a.(*ssa.MakeInterface); ok {
+						if sc := f.g.findExtern(callee.String() + "[" + typeKey(mi.X.Type()) + "]"); sc != nil {
+							ct = sc
+							break
+						}
+					}
+				}
+			}
 			if mc, ok := c.Value.(*ssa.MakeClosure); ok {
 				// bindings are the free variables of the closure: pass after the params
 				_ = mc
@@ -99,6 +112,11 @@ func (f *FnVC) call(v ssa.Value, c *ssa.CallCommon, ins ssa.Instruction) {
 					}
 				}
 			}
+			if pr, ok := c.Value.(*ssa.Parameter); ok && ct == nil && f.fn.Pkg != nil {
+				// a function-typed parameter of the function under verification: contract  func param:<func>.<name>
+				name = "func parameter " + pr.Name()
+				ct = f.g.findExternOrRepo(f.fn.Pkg.Pkg.Path() + ".param:" + f.fn.RelString(f.fn.Pkg.Pkg) + "." + pr.Name())
+			}
 			if nt, ok := c.Value.Type().(*types.Named); ok && ct == nil {
 				name = "functype " + typeKey(nt)
 				if nt.Obj().Pkg() != nil {
@@ -107,6 +125,7 @@ func (f *FnVC) call(v ssa.Value, c *ssa.CallCommon, ins ssa.Instruction) {
 			}
 		}
 	}
+	curCallArgs = nil
 	argVals = nil
 	if c.IsInvoke() {
 		argVals = append(argVals, c.Value)
@@ -120,7 +139,9 @@ func (f *FnVC) call(v ssa.Value, c *ssa.CallCommon, ins ssa.Instruction) {
 		f.warn("synthetic callee %s has no contract", name)
 	}
 	if ct != nil {
+		curCallArgs = argVals
 		f.applyContract(ct, callee, sig, args, v, pos, name)
+		curCallArgs = nil
 		return
 	}
 	// no contract
@@ -144,6 +165,52 @@ func (f *FnVC) call(v ssa.Value, c *ssa.CallCommon, ins ssa.Instruction) {
 	}
 	f.bumpNextref()
 	f.bindResults(v, sig, nil, nil)
+}
+
+// checkFuncArgs: where the callee declares a contract for a function-typed parameter (func param:<func>.<name>), the
+// function passed at this call site must have a contract of its own that fits. Supported shape: the parameter
+// contract has no requires and 'assigns nothing'; the argument must be a function or closure literal whose contract
+// has no requires and assigns nothing.
+func (f *FnVC) checkFuncArgs(callee *ssa.Function, pos token.Pos) {
+	if callee.Pkg == nil || curCallArgs == nil || len(curCallArgs) != len(callee.Params) {
+		return
+	}
+	for i, p := range callee.Params {
+		pc := f.g.findExternOrRepo(callee.Pkg.Pkg.Path() + ".param:" + callee.RelString(callee.Pkg.Pkg) + "." + p.Name())
+		if pc == nil {
+			continue
+		}
+		ok := false
+		var fn *ssa.Function
+		switch a := curCallArgs[i].(type) {
+		case *ssa.MakeClosure:
+			fn, _ = a.Fn.(*ssa.Function)
+		case *ssa.Function:
+			fn = a
+		}
+		if fn != nil {
+			if ac := f.g.contractFor(fn); ac != nil && ac.HasAssign && len(ac.Assigns) == 0 && !ac.AssignsAll && len(pc.Assigns) == 0 && !pc.AssignsAll {
+				// every precondition of the argument must be (textually) one of the parameter contract's preconditions
+				ok = true
+				for _, r := range ac.Requires {
+					found := false
+					for _, q := range pc.Requires {
+						if strings.Join(strings.Fields(q.Text), " ") == strings.Join(strings.Fields(r.Text), " ") {
+							found = true
+						}
+					}
+					if !found {
+						ok = false
+					}
+				}
+			}
+		}
+		cond := "false"
+		if ok {
+			cond = "true"
+		}
+		f.oblige("conforms", "argument for parameter "+p.Name()+" of "+callee.Name()+" has a contract that fits the parameter's (its requires among the parameter's, assigns nothing)", cond, pos)
+	}
 }
 
 func (g *Gen) findExternOrRepo(name string) *Contract {
@@ -340,6 +407,7 @@ func (f *FnVC) applyContract(ct *Contract, callee *ssa.Function, sig *types.Sign
 		for i, p := range callee.Params {
 			env.vars[p.Name()] = args[i]
 		}
+		f.checkFuncArgs(callee, pos)
 	} else if callee != nil && !ct.Extern && callee.Signature != nil {
 		// body not loaded (package is a dependency): parameter names from the signature
 		var names []string
@@ -390,7 +458,7 @@ func (f *FnVC) applyContract(ct *Contract, callee *ssa.Function, sig *types.Sign
 				r = "(s_ref " + r + ")"
 			}
 			f.bumpNextref()
-			f.gfact(sAnd("(>= "+r+" "+f.root.get("$nextref")+")", "(< "+r+" "+f.st.get("$nextref")+")", "(> "+r+" 0)"))
+			f.gfact(sOr(sEq(r, "0"), sAnd("(>= "+r+" "+f.root.get("$nextref")+")", "(< "+r+" "+f.st.get("$nextref")+")", "(> "+r+" 0)")))
 		}
 		f.assumeExternEnsures(ct, args, res, f.st)
 		return
@@ -453,7 +521,8 @@ func (f *FnVC) applyContract(ct *Contract, callee *ssa.Function, sig *types.Sign
 		if out[0].Sort == sliceSort {
 			r = "(s_ref " + r + ")"
 		}
-		f.gfact(sAnd("(>= "+r+" "+pre.get("$nextref")+")", "(< "+r+" "+f.st.get("$nextref")+")", "(> "+r+" 0)"))
+		// a result declared fresh is nil or newly allocated
+		f.gfact(sOr(sEq(r, "0"), sAnd("(>= "+r+" "+pre.get("$nextref")+")", "(< "+r+" "+f.st.get("$nextref")+")", "(> "+r+" 0)")))
 	}
 	// ghost updates: evaluated with pre-state ghosts (old) and the results; applied to the post state
 	for _, sc := range ct.Sets {
